@@ -257,3 +257,66 @@ def inv3Line (io : SetIO S) (debug : Bool) (root : String) (rv : Nat) (answers :
   ";;".intercalate (inv3Replay io (ans.length + 5) s req ans [])
 
 end Pubgrub.Diag
+
+namespace Pubgrub.Diag
+open Pubgrub Pubgrub.SolveDriver
+variable {S : Type} [VersionSet S Nat] [DecidableEq S]
+
+/-- the term of a package restricted to the assignments with global index < g -/
+def termBefore (pa : PackageAssignments S Nat) (g : Nat) : Option (Term S) :=
+  let fromDated := ((pa.dated.filter fun dd => dd.globalIndex < g).getLast?).map (·.accumulated)
+  match pa.inter with
+  | .decision gd _ t => if gd < g then some t else fromDated
+  | .derivations _ => fromDated
+
+/-- candidate CauseInv: when a derivation was made, every other term of its cause was satisfied by the
+assignments made before it -/
+def checkCause (st : State Pk S Nat String Nat) : List String :=
+  st.ps.assignments.flatMap fun (p, pa) =>
+    pa.dated.flatMap fun dd =>
+      match st.store[dd.cause]? with
+      | none => [s!"cause-missing:{p}"]
+      | some inc =>
+        (if (inc.get p).isSome then [] else [s!"cause-lacks-package:{p}/I{dd.cause}"]) ++
+        inc.terms.flatMap fun (r, tr) =>
+          if r == p then [] else
+          match (SmallMap.get st.ps.assignments r).bind (fun par => termBefore par dd.globalIndex) with
+          | none => [s!"other-term-unassigned:{p}/I{dd.cause}/{r}"]
+          | some t => if t.subsetOf tr then [] else [s!"other-term-not-satisfied:{p}/I{dd.cause}/{r}"]
+
+/-- candidate level monotonicity: global indices and decision levels are ordered alike -/
+def checkLevelMono (ps : PartialSolution Pk S Nat Nat) : List String :=
+  let all : List (Nat × Nat × Bool) := ps.assignments.flatMap fun (_, pa) =>
+    pa.dated.map (fun dd => (dd.globalIndex, dd.decisionLevel, false)) ++
+    (match pa.inter with | .decision g _ _ => [(g, pa.highest, true)] | _ => [])
+  all.flatMap fun (g1, l1, _) => all.flatMap fun (g2, l2, d2) =>
+    if g1 < g2 then
+      (if l1 ≤ l2 then [] else [s!"level-order:{g1}@{l1}>{g2}@{l2}"]) ++
+      (if d2 && l1 ≥ l2 then [s!"decision-level-not-fresh:{g2}@{l2}"] else [])
+    else []
+
+def inv4Replay (io : SetIO S) : (n : Nat) → St S → Rq S → List String → List String → List String
+  | 0, _, _, _, out => out
+  | n + 1, s, req, answers, out =>
+    match resultText io req with
+    | some _ => out
+    | none =>
+      match answers with
+      | [] => out
+      | a :: rest =>
+        match parseAnswer io a with
+        | none => out
+        | some ans =>
+          let (s', req') := Solver.step s ans
+          let fin := match s'.phase with | .finished => true | _ => false
+          let bad := if fin then [] else checkCause s'.st ++ checkLevelMono s'.st.ps
+          let out := if bad.isEmpty then out ++ ["ok"] else out ++ [",".intercalate bad ++ " @ " ++ psSnapshot io s'.st.ps]
+          inv4Replay io n s' req' rest out
+
+def inv4Line (io : SetIO S) (debug : Bool) (root : String) (rv : Nat) (answers : String) : String :=
+  let (s, req) := Solver.start (P := Pk) (S := S) (V := Nat) (M := String) (Pr := Nat) (E := String)
+    debug 1000000 root rv
+  let ans := if answers == "" then [] else answers.splitOn ";;"
+  ";;".intercalate (inv4Replay io (ans.length + 5) s req ans [])
+
+end Pubgrub.Diag
